@@ -114,6 +114,17 @@ def sliceCols (M : List (List α)) (sel : List Nat) (d : α) : List (List α) :=
 def sliceRows (M : List (List α)) (sel : List Nat) : List (List α) :=
   sel.map fun r => M.getD r []
 
+/-- `M[i, j] = v` (no effect when out of range) -/
+def mset (M : List (List α)) (i j : Nat) (v : α) : List (List α) :=
+  M.set i ((M.getD i []).set j v)
+
+/-- a sequence of single-cell assignments, in order -/
+def fill (M : List (List α)) (W : List ((Nat × Nat) × α)) : List (List α) :=
+  W.foldl (fun M w => mset M w.1.1 w.1.2 w.2) M
+
+/-- `np.zeros((n, n), dtype=bool)` -/
+def zeros (n : Nat) : List (List Bool) := tabulate n fun _ _ => false
+
 /-- `M[:, sel][sel]` -/
 def subMatrix (M : List (List α)) (sel : List Nat) (d : α) : List (List α) :=
   sliceRows (sliceCols M sel d) sel
@@ -144,9 +155,28 @@ def ball (E : List (ResKey × ResKey)) : Nat → ResKey → List ResKey
 def resConnected (E : List (ResKey × ResKey)) (c : Nat) (a b : ResKey) : Bool :=
   (ball E c a).contains b
 
-/-- entry (i, j) of the full `connectivity` matrix after `fill_diagonal(False)` -/
+/-- entry (i, j) of the full `connectivity` matrix after `fill_diagonal(False)` (closed form; see
+`connFull` for the loops and `mget_connFull` for the proof that they agree) -/
 def connEntry (atoms : List Atom) (E : List (ResKey × ResKey)) (sep : Nat) (i j : Nat) : Bool :=
   i != j && resConnected E sep (atomAt atoms i).res (atomAt atoms j).res
+
+/-- nodes of the residue graph -/
+def residues (atoms : List Atom) : List ResKey := (atoms.map (·.res)).eraseDups
+
+/-- `res_graph.nodes[r]['graph'].nodes()`, as node indices -/
+def nodesOf (atoms : List Atom) (r : ResKey) : List Nat :=
+  (List.range atoms.length).filter fun i => (atomAt atoms i).res = r
+
+/-- the assignments `connectivity[node_to_idx[origin], node_to_idx[target]] = True` of the three nested loops
+of `build_connectivity_matrix` -/
+def connWrites (atoms : List Atom) (E : List (ResKey × ResKey)) (sep : Nat) : List ((Nat × Nat) × Bool) :=
+  (residues atoms).flatMap fun R => (ball E sep R).flatMap fun T =>
+    (nodesOf atoms R).flatMap fun o => (nodesOf atoms T).map fun t => ((o, t), true)
+
+/-- the full `connectivity` matrix: zeros, the loops, then `np.fill_diagonal(connectivity, False)` -/
+def connFull (atoms : List Atom) (E : List (ResKey × ResKey)) (sep : Nat) : List (List Bool) :=
+  fill (fill (zeros atoms.length) (connWrites atoms E sep))
+    ((List.range atoms.length).map fun i => ((i, i), false))
 
 /-! ### domain criteria -/
 
@@ -161,13 +191,30 @@ def crit (d : Domain) (a b : Atom) : Bool :=
   | .chain => a.res.chain == b.res.chain
   | .regions rs => rs.any fun r => inRegion r (effResid a) && inRegion r (effResid b)
 
-/-- entry (i, j) of the full `share_domain` matrix: filled for `combinations(selection, 2)`
-(first index earlier in the selection) and mirrored; everything else stays False. -/
+/-- entry (i, j) of the full `share_domain` matrix in closed form: filled for `combinations(selection, 2)`
+(first index earlier in the selection) and mirrored; everything else stays False
+(see `domFull` for the loop and `mget_domFull` for the proof that they agree). -/
 def domEntry (sel : List Nat) (atoms : List Atom) (d : Domain) (i j : Nat) : Bool :=
   sel.contains i && sel.contains j &&
     (if i < j then crit d (atomAt atoms i) (atomAt atoms j)
      else if j < i then crit d (atomAt atoms j) (atomAt atoms i)
      else false)
+
+/-- `itertools.combinations(l, 2)` -/
+def combos2 : List Nat → List (Nat × Nat)
+  | [] => []
+  | x :: t => (t.map fun y => (x, y)) ++ combos2 t
+
+/-- the assignments of the loop of `build_pair_matrix`:
+`share_domain[kdx, jdx] = criterion(graph, key_kdx, key_jdx); share_domain[jdx, kdx] = share_domain[kdx, jdx]` -/
+def domWrites (sel : List Nat) (atoms : List Atom) (d : Domain) : List ((Nat × Nat) × Bool) :=
+  (combos2 sel).flatMap fun kj =>
+    [((kj.1, kj.2), crit d (atomAt atoms kj.1) (atomAt atoms kj.2)),
+     ((kj.2, kj.1), crit d (atomAt atoms kj.1) (atomAt atoms kj.2))]
+
+/-- the full `share_domain` matrix -/
+def domFull (sel : List Nat) (atoms : List Atom) (d : Domain) : List (List Bool) :=
+  fill (zeros atoms.length) (domWrites sel atoms d)
 
 /-! ### force constants -/
 
@@ -215,12 +262,11 @@ structure Mats where
 def mats (atoms : List Atom) (edges : List (Int × Int)) (p : Params) : Mats :=
   let sel := selection p.names atoms
   let coords := sel.map fun i => vec (atomAt atoms i).pos
-  let n := atoms.length
   let E := resEdges atoms edges
   { sel := sel
     dist := coords.map fun a => coords.map fun b => dist2 a b
-    conn := subMatrix (tabulate n (connEntry atoms E p.sep)) sel false
-    dom := subMatrix (tabulate n (domEntry sel atoms p.dom)) sel false }
+    conn := subMatrix (connFull atoms E p.sep) sel false
+    dom := subMatrix (domFull sel atoms p.dom) sel false }
 
 /-- `constants[i, j]` after `constants *= (~connected) & same_domain` -/
 def constEntry (p : Params) (M : Mats) (i j : Nat) : Rat :=
